@@ -640,6 +640,11 @@ class Exporter:
                              "std::vec::Vec::splice", "std::vec::Vec::split_off", "std::vec::Vec::resize", "std::vec::Vec::extend_from_within"):
                 evs.append({"pos": self.order.get(blk, 0), "block": blk, "loop": self.loopctx(blk), "cond": self.condctx(blk),
                             "content": ("unknown", "buffer edited by %s" % c.npath)})
+            elif str((t.get("argtys") or [""])[0]).startswith("&mut") and not re.search(r"::(reserve|reserve_exact|shrink_to_fit|shrink_to|try_reserve|try_reserve_exact|capacity|len|is_empty)$", c.npath):
+                # anything else that takes the output buffer mutably can overwrite what was emitted
+                # (`out[a..b].copy_from_slice(..)`, `out.as_mut_slice()`, `out.iter_mut()`, `out.sort()` ..)
+                evs.append({"pos": self.order.get(blk, 0), "block": blk, "loop": self.loopctx(blk), "cond": self.condctx(blk),
+                            "content": ("unknown", "emitted bytes may be overwritten: buffer borrowed mutably by %s" % c.npath)})
         evs.sort(key=lambda x: x["pos"])
         return evs
 
